@@ -1,6 +1,7 @@
 package props
 
 import (
+	"bytes"
 	"context"
 	"fmt"
 	"os"
@@ -65,6 +66,8 @@ func valBuild(name string, seed uint64) *lib.Build {
 		b.PutFile("b2.bin", rb(2*lib.BS))
 		b.PutFile("b3p.bin", rb(3*lib.BS+100))
 		b.PutFile("m1.bin", rb(lib.BS-1))
+		b.PutFile("t-twin.bin", b.E["t.bin"].Data)   // same bytes as t.bin
+		b.PutFile("b2-twin.bin", b.E["b2.bin"].Data) // same bytes as b2.bin
 		b.PutSymlink("lnk", "t.bin")
 		b.PutDir("emptydir")
 		b.PutDir("emptydir2")
@@ -74,10 +77,25 @@ func valBuild(name string, seed uint64) *lib.Build {
 
 func treeDamages(b *lib.Build) []lib.Damage {
 	var out []lib.Damage
+	nExt := 0
 	for _, e := range b.Sorted() {
 		switch e.Kind {
 		case lib.KFile:
 			out = append(out, lib.FileDamages(e.Path, int64(len(e.Data)))...)
+			// replaced by a symlink to ANOTHER file holding exactly the signed bytes (only the kind tells)
+			for _, o := range b.Sorted() {
+				if o.Kind == lib.KFile && o.Path != e.Path && len(e.Data) > 0 && bytes.Equal(o.Data, e.Data) {
+					if rel, err := filepath.Rel(filepath.Dir(e.Path), o.Path); err == nil {
+						out = append(out, lib.Damage{Op: "tosymlink", Path: e.Path, S: rel})
+					}
+					break
+				}
+			}
+			// grown by more than the 4 MiB wound aggregation limit
+			if nExt < 2 && len(e.Data) > 0 && len(e.Data) < lib.MB {
+				nExt++
+				out = append(out, lib.Damage{Op: "extend", Path: e.Path, N: 4*lib.MB + 2*lib.BS + 5}, lib.Damage{Op: "extend", Path: e.Path, N: 9 * lib.MB})
+			}
 		case lib.KDir:
 			out = append(out, lib.Damage{Op: "rmtree", Path: e.Path}, lib.Damage{Op: "tofile", Path: e.Path},
 				lib.Damage{Op: "tosymlink", Path: e.Path, S: "nowhere"}, lib.Damage{Op: "emptydir", Path: e.Path})
